@@ -21,9 +21,10 @@ from .kernel import Deadlock, Kernel, activate
 
 PROP = "C13"
 RULE = (
-    "each run draws a source raster (1-48 px per side, optional leading time axis, dtype, nodata setting, distinct non-fill pixel values), "
+    "each run draws a source raster (1-48 px per side, optional leading time or trailing band axis with regular or irregular chunks, dtype incl. bool "
+    "with nodata, native or big-endian, nodata setting, distinct non-fill pixel values), "
     "a destination grid (same CRS: exact dyadic grids with integer/sub-pixel shifts, scales, mirroring; inexact and rotated grids; cross CRS "
-    "among 4326/3857/32633/3577-like/3035; contained / partial / touching / disjoint), source and destination chunk shapes (1-pixel and "
+    "among 4326/3857/32633/3577-like/3035; contained / partial / touching / disjoint; 4 % whole-world, pole-containing and pole-centred pairs), source and destination chunk shapes (1-pixel and "
     "non-dividing included) and a DaskSim configuration (policy, K workers, transport, recompute, fusion); the graph is executed twice under "
     "different schedules. Non-trivial: more than one task of the reprojection layer ran. Distinct: (grid pair, dtype, nodata, chunking, task order)."
 )
@@ -39,6 +40,7 @@ ASSUMPTIONS = [
     "O13.1 (exact equality) applies to same-CRS nearest-neighbour runs; on inexact grids destination centres within 1e-6 px of a source pixel edge are left out (counted)",
     "O13.2/O13.5 use a safety margin of 3 source + 3 destination pixels around the projected footprint, computed with affine/pyproj/numpy",
     "source pixel values never equal the fill value",
+    "whole-world / polar pairs come from six fixed templates (GLOBAL_TEMPLATES) with drawn chunkings; on them the tile-overlap computation raises for pole-containing footprints and for 360-degree-wide destination chunks (known findings D13g, D13h)",
     "cross-CRS rasters are local (at most ~150 km across): on continental extents the per-chunk source-tile lookup approximates curved outlines too coarsely (C12's dependency completeness, not claimed) - see DESIGN 7.3",
 ]
 
